@@ -32,11 +32,11 @@ pub struct Case18 {
     pub choices: Vec<u8>,
 }
 
-fn out_char() -> BoxedStrategy<u8> {
+pub fn out_char() -> BoxedStrategy<u8> {
     prop_oneof![3 => proptest::sample::select(MARKERS.to_vec()), 1 => 0x80u8..=0xFF].boxed()
 }
 
-fn line_s(min: usize, max: usize) -> BoxedStrategy<Vec<u8>> {
+pub fn line_s(min: usize, max: usize) -> BoxedStrategy<Vec<u8>> {
     // printable ASCII and a few two-byte characters; no CR/LF inside a line
     proptest::collection::vec(prop_oneof![8 => (0x20u8..0x7F).prop_map(|b| vec![b]), 1 => Just("é".as_bytes().to_vec()), 1 => Just("ß".as_bytes().to_vec())], min..=max).prop_map(|v| v.concat()).boxed()
 }
@@ -89,9 +89,46 @@ fn call_s() -> BoxedStrategy<Call> {
         2 => line_s(1, 20).prop_map(|line| Call::GetChar { line }),
         4 => bufin_s(),
         2 => (out_char(), prop_oneof![3 => 0u16..40, 1 => 250u16..600]).prop_map(|(al, cx)| Call::RepChar { al, cx }),
-        3 => (prop_oneof![2 => 0x9000u16..0xE000, 1 => Just(0xFFFFu16), 1 => Just(0xFFFEu16)], 0u16..16, 0u8..30, proptest::collection::vec(out_char(), 1..40)).prop_map(|(seg, bp, dl, text)| Call::PutStr { seg, bp, dl, text }),
+        3 => putstr_s(false),
     ]
     .boxed()
+}
+
+/// INT 10h AH=13h; `top`: only segments FFFEh/FFFFh.  BP up to 63 so that with ES=FFFFh the text starts at or beyond
+/// 2^20 (ES:BP = FFFF:0010h is physical address 0), not only crosses it
+fn putstr_s(top: bool) -> BoxedStrategy<Call> {
+    let seg = if top { prop_oneof![1 => Just(0xFFFFu16), 1 => Just(0xFFFEu16)].boxed() } else { prop_oneof![2 => 0x9000u16..0xE000, 1 => Just(0xFFFFu16), 1 => Just(0xFFFEu16)].boxed() };
+    (seg, prop_oneof![3 => 0u16..16, 2 => 16u16..64], 0u8..30, proptest::collection::vec(out_char(), 1..40)).prop_map(|(seg, bp, dl, text)| Call::PutStr { seg, bp, dl, text }).boxed()
+}
+
+/// cases for C09's L3 part: every service pointed at the last bytes of the address space
+pub fn top_case_s() -> BoxedStrategy<Case18> {
+    let bufin_top = bufin_s().prop_map(|c| match c {
+        Call::BufIn { cap, seg, off, line } if seg < 0xF000 => {
+            // move mid-memory placements to the top: FFFFh:2..15 or a buffer that ends exactly at FFFFFh
+            if off & 1 == 0 {
+                Call::BufIn { cap, seg: 0xFFFF, off: 2 + (off % 14), line }
+            } else {
+                Call::BufIn { cap, seg: 0xF000, off: 0xFFFE - cap as u16, line }
+            }
+        }
+        c => c,
+    });
+    let call = prop_oneof![
+        4 => bufin_top,
+        4 => putstr_s(true),
+        1 => out_char().prop_map(|dl| Call::PutChar { dl }),
+        1 => line_s(1, 20).prop_map(|line| Call::GetChar { line }),
+        1 => (out_char(), prop_oneof![3 => 0u16..40, 1 => 250u16..600]).prop_map(|(al, cx)| Call::RepChar { al, cx }),
+    ];
+    (
+        proptest::collection::vec((call, [crate::pt::u16s(), crate::pt::u16s(), crate::pt::u16s(), crate::pt::u16s()]), 1..=3),
+        prop_oneof![5 => Just(0u8), 2 => Just(1u8), 2 => Just(2u8), 1 => Just(3u8)],
+        proptest::collection::vec(proptest::sample::select(vec!["stc", "clc", "cmc", "std", "cld", "sti", "cli"]), 0..3),
+        proptest::collection::vec(any::<u8>(), 24),
+    )
+        .prop_map(|(calls, stdin_mode, tweaks, choices)| Case18 { calls, stdin_mode, tweaks, choices })
+        .boxed()
 }
 
 pub fn case_s() -> BoxedStrategy<Case18> {
@@ -396,8 +433,11 @@ pub fn eval(c: &Case18) -> CaseOutcome {
                     nt = true;
                 }
             }
-            Call::PutStr { seg, .. } => {
+            Call::PutStr { seg, bp, .. } => {
                 classes.push("c18/10h-13".into());
+                if *seg as u32 * 16 + *bp as u32 >= (1 << 20) {
+                    classes.push("c18/string-starts-at-or-beyond-2^20".into());
+                }
                 let high_buf = c.calls.iter().any(|(x, _)| matches!(x, Call::BufIn { seg, .. } if *seg >= 0xF000));
                 if *seg >= 0xFFFE && !high_buf {
                     classes.push("c18/string-across-2^20".into());
@@ -464,7 +504,7 @@ pub fn run(ctx: &Ctx) {
             CaseOutcome::Known(k) => ctx.known_hit(&k, 1),
         }
     }
-    for k in ["c18/21h-01", "c18/21h-02", "c18/21h-0A", "c18/10h-0A", "c18/10h-13", "c18/line-longer-than-capacity", "c18/capacity-0", "c18/buffer-near-or-across-2^20", "c18/string-across-2^20", "c18/cx>=256", "c18/stdin-closed", "c18/stdin-ends-early", "c18/stdin-no-final-newline", "c18/char>=80h"] {
+    for k in ["c18/21h-01", "c18/21h-02", "c18/21h-0A", "c18/10h-0A", "c18/10h-13", "c18/line-longer-than-capacity", "c18/capacity-0", "c18/buffer-near-or-across-2^20", "c18/string-across-2^20", "c18/string-starts-at-or-beyond-2^20", "c18/cx>=256", "c18/stdin-closed", "c18/stdin-ends-early", "c18/stdin-no-final-newline", "c18/char>=80h"] {
         ctx.require_class(k, 20);
     }
 }
